@@ -21,8 +21,8 @@ META = dict(
                 'documented nesting rule; for every interleaving of machine steps of any number of threads a thread that uses thread-local managers behaves exactly as when run alone; '
                 'only dynamic_evaluate(per_thread=False) and load_types_for_deserialization touch the process-wide store.'),
     level_note=('Trusted: Coq kernel; translator harness/translators/scope_defs.py; ScopesBase.v primitives (tied to thread_local.py by source fingerprints and by the correspondence); '
-                'extraction cross-checked against vm_compute. Hand-written, tied by correspondence only: _DetourContext.enter_scope/leave_scope (pg.detour, pg.apply_wrappers); '
-                'every other manager is regenerated from the source. What the settings DO (formatting, type checking, ...) is not modelled: it is probed by the oracle only; values are small atoms / flat dicts.'),
+                'extraction cross-checked against vm_compute. All 19 managers and the getters with logic (get_context, get_permission, current_mappings, get_dynamic_evaluate_fn) are regenerated from the source; '
+                'hand-written are only the specifications the generated loops are proved against (contextual_merge, detour_spec) and the top-of-stack read of the on-demand type registry. What the settings DO (formatting, type checking, ...) is not modelled: it is probed by the oracle only; values are small atoms / flat dicts.'),
     rule=('a case is a well-nested program (or 2-4 programs and an event schedule); distinct by canonical program text; non-trivial when some scope is nested inside another scope '
           'or is left by an exception, or when at least two threads are inside scopes at the same time'),
     trusted_base=['translator harness/translators/scope_defs.py (fail-closed Python-subset compiler)',
